@@ -44,4 +44,31 @@ PushAll(st, dgs, i) == IF i > Len(dgs) \/ st.stop # "none" THEN st ELSE PushAll(
 
 (* the whole flush: push in order until refused, then the frame in progress (if any) leaves *)
 Flush(dgs, credit, room) == Finalize(PushAll(Start(credit, room), dgs, 1))
+
+\* ------------------------------------------------------------------------------ acknowledgement frames
+(* The same for the acknowledgement frames of one flush (AckFrameEmitter under emit_ack_frames): n ack groups are
+   owed (9 bytes each, 15 bytes of frame overhead), `dud` says that a sync frame must be answered even if no group
+   is owed (an empty ack frame).  A frame is started while the credit is not negative; a group joins the frame in
+   progress unless the credit no longer covers the bytes already in it (the frame leaves, the flush ends) or the
+   frame would exceed 1472 bytes (it leaves and the group starts the next one).  Result: the number of groups in
+   each frame that leaves, and whether the flush was cut short. *)
+AckOverhead == 15
+GroupSize == 9
+AckLen(k) == AckOverhead + GroupSize * k
+
+AckStart(credit) == [alloc |-> credit, cur |-> -1, frames |-> <<>>, stop |-> FALSE]
+AckFinalize(st) == IF st.cur < 0 THEN st ELSE [st EXCEPT !.frames = Append(@, st.cur), !.alloc = @ - AckLen(st.cur), !.cur = -1]
+AckNew(st, k) == IF st.alloc < 0 THEN [st EXCEPT !.stop = TRUE] ELSE [st EXCEPT !.cur = k]
+AckDud(st) == IF st.cur >= 0 THEN st ELSE AckNew(st, 0)
+AckPush(st) ==
+    IF st.cur >= 0 THEN
+        (IF st.alloc - AckLen(st.cur) < 0 THEN [AckFinalize(st) EXCEPT !.stop = TRUE]
+         ELSE IF AckLen(st.cur) + GroupSize > MaxFrame THEN AckNew(AckFinalize(st), 1)
+         ELSE [st EXCEPT !.cur = @ + 1])
+    ELSE AckNew(st, 1)
+RECURSIVE AckPushAll(_, _)
+AckPushAll(st, n) == IF n = 0 \/ st.stop THEN st ELSE AckPushAll(AckPush(st), n - 1)
+AckFlush(n, credit, dud) ==
+    LET s0 == IF dud THEN AckDud(AckStart(credit)) ELSE AckStart(credit) IN
+    IF s0.stop THEN s0 ELSE AckFinalize(AckPushAll(s0, n))
 =====================================================================================
